@@ -39,7 +39,10 @@ pub enum Fill {
 pub enum Request {
     Parse(Kind, Vec<u8>),
     Pad(Kind, Vec<u8>, u8),
-    Build(B, Vec<(usize, Fill)>),
+    /// builder, buffer specs, `(rt_first)`: the round trip before the `bufs` writes
+    Build(B, Vec<(usize, Fill)>, bool),
+    /// `(interleave A B)`: two whole-packet builders alive at the same time
+    Interleave(B, B),
     /// only `calculate_size()` and `get_padding()`
     Size(B),
     Helper(Helper),
@@ -145,6 +148,8 @@ pub struct Chunk {
 
 #[derive(Debug)]
 pub enum SdesCall {
+    /// `(via_default)`, first call only: the builder is `SdesBuilder::default()`
+    ViaDefault,
     Probe,
     Padding(u8),
     AddChunk(Chunk),
@@ -167,6 +172,8 @@ pub enum FbCall {
 
 #[derive(Debug)]
 pub enum RpsiCall {
+    /// `(via_default)`, first call only: the builder is `RpsiBuilder::default()`
+    ViaDefault,
     Probe,
     PayloadType(u8),
     /// `native_data(&[u8], k)` (`Cow::Borrowed`)
@@ -181,6 +188,9 @@ pub enum RpsiCall {
 pub enum FciCall<T> {
     Add(T),
     Probe,
+    /// `(via_default)`, first call only (`nack`, `fir`; never `sli`): the builder is
+    /// `NackBuilder::default()` / `FirBuilder::default()`
+    ViaDefault,
 }
 
 #[derive(Debug)]
@@ -207,6 +217,8 @@ pub enum Member {
     Packet(B),
     /// `(probe)` on the `CompoundBuilder` holding the members added so far
     Probe,
+    /// `(via_default)`, first element only: the builder is `CompoundBuilder::default()`
+    ViaDefault,
 }
 
 /// A builder: constructor plus the calls made on it, in order.
@@ -415,6 +427,38 @@ fn is_probe(h: &str, a: &[Sexp]) -> Result<bool, Bad> {
     }
 }
 
+/// `(via_default)` in the position where the pre-scan `via_default_ok` allows it.
+fn is_via_default(s: &Sexp) -> bool {
+    matches!(s.call(), Some(("via_default", [])))
+}
+
+/// The builders whose Rust type implements `Default` publicly (`NackBuilder`, `FirBuilder`,
+/// `RpsiBuilder`, `SdesBuilder`, `CompoundBuilder`): `(via_default)` may be their first CALL.
+const VIA_DEFAULT_HEADS: [&str; 5] = ["nack", "fir", "rpsi", "sdes", "compound"];
+
+/// PROTOCOL.md §4.3, `(via_default)`: every list headed by the atom `via_default` has to be
+/// exactly `(via_default)` and the first element after the head of a `nack` / `fir` / `rpsi` /
+/// `sdes` / `compound` list. (Iterative: requests nest deeply.)
+pub fn via_default_ok(root: &Sexp) -> bool {
+    let mut todo = vec![root];
+    while let Some(s) = todo.pop() {
+        let Some(l) = s.list() else { continue };
+        let mut args = l;
+        if let Some((head, rest)) = s.call() {
+            if head == "via_default" {
+                // an occurrence nobody skipped: not in an allowed position
+                return false;
+            }
+            args = rest;
+            if VIA_DEFAULT_HEADS.contains(&head) && args.first().is_some_and(is_via_default) {
+                args = &args[1..];
+            }
+        }
+        todo.extend(args.iter());
+    }
+    true
+}
+
 fn custom_grid(pt: &Sexp, min: &Sexp) -> Result<(u8, usize), Bad> {
     let pt = num(pt)?;
     let min = num(min)?;
@@ -562,8 +606,21 @@ pub fn request(s: &Sexp) -> Result<Request, Bad> {
             Ok(Request::Pad(k, b, n as u8))
         }
         "build" => {
+            // `(rt_first)`: optional flag behind the `bufs` list
+            let mut args = args;
+            let mut rt_first = false;
+            if args.len() == 3 {
+                if !matches!(args[2].call(), Some(("rt_first", []))) {
+                    return Err("arity");
+                }
+                rt_first = true;
+                args = &args[..2];
+            }
             if args.is_empty() || args.len() > 2 {
                 return Err("arity");
+            }
+            if !via_default_ok(&args[0]) {
+                return Err("via_default");
             }
             let b = builder(&args[0])?;
             let mut specs = Vec::new();
@@ -581,11 +638,27 @@ pub fn request(s: &Sexp) -> Result<Request, Bad> {
                     specs.push((len, fill(&l[1])?));
                 }
             }
-            Ok(Request::Build(b, specs))
+            Ok(Request::Build(b, specs, rt_first))
         }
         "size" => {
             arity(args, 1)?;
+            if !via_default_ok(&args[0]) {
+                return Err("via_default");
+            }
             Ok(Request::Size(builder(&args[0])?))
+        }
+        "interleave" => {
+            arity(args, 2)?;
+            if !via_default_ok(&args[0]) || !via_default_ok(&args[1]) {
+                return Err("via_default");
+            }
+            let a = builder(&args[0])?;
+            let b = builder(&args[1])?;
+            // whole packets only: not chunk / item / bare FCI builders
+            if !a.is_member() || !b.is_member() {
+                return Err("interleave");
+            }
+            Ok(Request::Interleave(a, b))
         }
         "helper" => Ok(Request::Helper(helper(args)?)),
         _ => Err("request"),
@@ -671,7 +744,11 @@ fn fci(s: &Sexp) -> Result<Fci, Bad> {
     match head {
         "nack" => {
             let mut v = Vec::with_capacity(args.len());
-            for c in args {
+            for (i, c) in args.iter().enumerate() {
+                if i == 0 && is_via_default(c) {
+                    v.push(FciCall::ViaDefault);
+                    continue;
+                }
                 let (h, a) = c.call().ok_or("call")?;
                 if is_probe(h, a)? {
                     v.push(FciCall::Probe);
@@ -686,7 +763,11 @@ fn fci(s: &Sexp) -> Result<Fci, Bad> {
         }
         "fir" => {
             let mut v = Vec::with_capacity(args.len());
-            for c in args {
+            for (i, c) in args.iter().enumerate() {
+                if i == 0 && is_via_default(c) {
+                    v.push(FciCall::ViaDefault);
+                    continue;
+                }
                 let (h, a) = c.call().ok_or("call")?;
                 if is_probe(h, a)? {
                     v.push(FciCall::Probe);
@@ -722,7 +803,11 @@ fn fci(s: &Sexp) -> Result<Fci, Bad> {
         }
         "rpsi" => {
             let mut v = Vec::with_capacity(args.len());
-            for c in args {
+            for (i, c) in args.iter().enumerate() {
+                if i == 0 && is_via_default(c) {
+                    v.push(RpsiCall::ViaDefault);
+                    continue;
+                }
                 let (h, a) = c.call().ok_or("call")?;
                 v.push(match h {
                     "probe" => {
@@ -859,7 +944,11 @@ pub fn builder(s: &Sexp) -> Result<B, Bad> {
         }
         "sdes" => {
             let mut calls = Vec::new();
-            for c in args {
+            for (i, c) in args.iter().enumerate() {
+                if i == 0 && is_via_default(c) {
+                    calls.push(SdesCall::ViaDefault);
+                    continue;
+                }
                 let (h, a) = c.call().ok_or("call")?;
                 calls.push(match h {
                     "probe" => {
@@ -938,7 +1027,11 @@ pub fn builder(s: &Sexp) -> Result<B, Bad> {
         }
         "compound" => {
             let mut members = Vec::with_capacity(args.len());
-            for m in args {
+            for (i, m) in args.iter().enumerate() {
+                if i == 0 && is_via_default(m) {
+                    members.push(Member::ViaDefault);
+                    continue;
+                }
                 if let Some(("probe", a)) = m.call() {
                     arity(a, 0)?;
                     members.push(Member::Probe);
